@@ -101,22 +101,22 @@ PROPS = {
                         'the cycle-breaking heuristics (breakCycle)', 'liveness: that a real cycle always stalls the loop; termination of the search (finite simple paths)'],
     },
     'C08': {
-        'units': ['extcmd', 'fileinfo', 'extcmd_run', 'extcmd_result', 'shelldeps_dispatch', 'nodetasks', 'archive', 'toolvalid'],
+        'units': ['extcmd', 'fileinfo', 'extcmd_run', 'extcmd_result', 'shelldeps_dispatch', 'nodetasks', 'archive', 'toolvalid', 'localfs'],
         'design_ref': 'DESIGN.md section 4, C08',
         'claim': 'kernel only: ExternalCommand::isResultValid declares a stored result valid only if every non-virtual output still matches what the '
                  'command produced (existence only for mutated outputs) and never for a non-successful stored result; FileInfo ==/!= and '
                  'getInfoForPath (shared with C13) decide "has this file changed"; computeCommandResult records one info per output in output order (the epoch for a command-timestamp node, the all-zero record for a virtual node, the current file info otherwise; at most 4 outputs named), '
                  'canUpdateIfNewerWithResult allows an update without running only with allow-modified-outputs and every recorded output existing; getResultForOutput gives output k the k-th recorded info (existing input with exactly that info / missing output / virtual input); '
-                 'FileInputNodeTask: a source file value is valid exactly when existence and file information are unchanged, and building it records the current information once; ProducedNodeTask hands its producing command exactly this node and the delivered value; a command that left the description builds to an invalid value with the change forced; a target is re-evaluated in every build; CommandTask forwards exactly the delivered values and input ids to its command; the deps-file dispatch of the shell command (see C11); the archive tool removes the OLD ARCHIVE (archiveName, with ignore-missing) before re-creating it and fails the command when that removal fails',
+                 'FileInputNodeTask: a source file value is valid exactly when existence and file information are unchanged, and building it records the current information once; ProducedNodeTask hands its producing command exactly this node and the delivered value; a command that left the description builds to an invalid value with the change forced; a target is re-evaluated in every build; CommandTask forwards exactly the delivered values and input ids to its command; the deps-file dispatch of the shell command (see C11); the archive tool removes the OLD ARCHIVE (archiveName, with ignore-missing) before re-creating it and fails the command when that removal fails; LocalFileSystem::createSymlink reports success exactly when the one symlink(2) call (contents, link path) created the link - never for an entry that was already there (the symlink tool removes a stale entry and retries on that failure)',
         'not_decided': ['on-disk equivalence with a clean build (everything the title says)', 'the per-key-kind rule dispatch in lookupRule (closures)',
                         'StatTask / ProducedDirectoryNodeTask, the start / inputsAvailable halves of TargetTask and CommandTask (closures)'],
     },
     'C10': {
-        'units': ['extcmd', 'subprocess', 'extcmd_run', 'extcmd_result', 'nodetasks', 'toolvalid'],
+        'units': ['extcmd', 'subprocess', 'extcmd_run', 'extcmd_result', 'nodetasks', 'toolvalid', 'localfs'],
         'design_ref': 'DESIGN.md section 4, C10',
         'claim': 'every stored command result that is not a success is invalid (retried next build); only a successful stored result counts as a prior '
                  'result (so a skipped / propagated-failure value can never short-cut execution); cleanUpExecutedProcess (POSIX) reports success only for '
-                 'a reaped process whose wait status word is 0, cancelled for SIGINT/SIGKILL, failed otherwise, exactly one processFinished and one completion; ExternalCommand::start re-initialises the per-build state (skip value, missing keys, hasPriorResult, canUpdateIfNewer) and requests every declared input once under its position; provideValue: a failed input or a disallowed missing input makes the command skip with a propagated failure and a later good input never clears that; execute: a skipping command reports its skip value and never runs, missing inputs count as a command failure, the run is replaced by a look at the outputs only with a successful prior result of THIS build, a failed / cancelled process yields a failed / cancelled command value; getResultForOutput: the outputs of a failed, cancelled or propagated-failure command are failed inputs, of a skipped one skipped; a produced node whose stored value was a failed or missing input is never valid, a node without a single producer fails the build with a failed input; the built-in mkdir and symlink tools never treat a non-successful stored result as valid; a produced directory node requests and returns the tree signature only when its producer really produced it (an existing input) - a failed, skipped or missing producer result is passed on as it is',
+                 'a reaped process whose wait status word is 0, cancelled for SIGINT/SIGKILL, failed otherwise, exactly one processFinished and one completion; ExternalCommand::start re-initialises the per-build state (skip value, missing keys, hasPriorResult, canUpdateIfNewer) and requests every declared input once under its position; provideValue: a failed input or a disallowed missing input makes the command skip with a propagated failure and a later good input never clears that; execute: a skipping command reports its skip value and never runs, missing inputs count as a command failure, the run is replaced by a look at the outputs only with a successful prior result of THIS build, a failed / cancelled process yields a failed / cancelled command value; getResultForOutput: the outputs of a failed, cancelled or propagated-failure command are failed inputs, of a skipped one skipped; a produced node whose stored value was a failed or missing input is never valid, a node without a single producer fails the build with a failed input; the built-in mkdir and symlink tools never treat a non-successful stored result as valid; a produced directory node requests and returns the tree signature only when its producer really produced it (an existing input) - a failed, skipped or missing producer result is passed on as it is; LocalFileSystem::createSymlink (see C08)',
         'not_decided': ['the directory creation and the dispatch to executeExternalCommand in execute', 'transitive non-execution across the graph and '
                         'parallel timing', 'the Windows branch of Subprocess.cpp (not compiled here)'],
     },
@@ -183,13 +183,13 @@ PROPS = {
         'not_decided': ['the key constructors (std::string building)', 'the array-built StringList constructor and getValues (the one-string constructor and encode are under contract)', 'the decoder does not check that it stays inside its data (corrupt stored values)'],
     },
     'C16': {
-        'units': ['lanequeue', 'serialqueue', 'subprocess', 'procgroup'],
+        'units': ['lanequeue', 'serialqueue', 'subprocess', 'procgroup', 'procoutput'],
         'design_ref': 'DESIGN.md section 4, C16',
         'claim': 'sequential kernel only: addJob (lane based and serial) queues / hands over every job exactly once, in the queue its priority selects, '
                  'also after cancellation, and wakes a lane with the mutex held; FifoScheduler is first-in first-out; the take-a-job step of a lane '
                  '(a segment of executeLane) removes exactly one job, from the priority queue whenever it has one, sleeps only with the mutex held after '
                  'observing both queues empty and no shutdown, and leaves only on shutdown with both queues drained; after cancellation executeProcess starts '
-                 'nothing and completes the request exactly once as cancelled; a reaped process yields exactly one processFinished and one completion; an interrupted wait4 (EINTR) is retried - a process is given up unreaped only for another error; ProcessGroup::signalAll (see C05)',
+                 'nothing and completes the request exactly once as cancelled; a reaped process yields exactly one processFinished and one completion; an interrupted wait4 (EINTR) is retried - a process is given up unreaped only for another error; ProcessGroup::signalAll (see C05); captureExecutedProcessOutput (the drain of a released child): every chunk read is handed to the delegate, the same buffer and exactly the bytes read, before the next read; the loop is left and the pipe closed only after a zero-byte read or a read error (reported once) - a short read is not the end of the output',
         'not_decided': ['the lane limit and "at most N jobs at once" (a property of the thread set)', 'interleavings of lanes, exactly-once across threads, data races',
                         'spawnProcess, pipe draining, process groups, the kill-after-timeout thread', 'released (background) lanes'],
     },
